@@ -1,7 +1,7 @@
 import Zc.Proofs.Response
 import Zc.Proofs.ResponseComplete
 import Zc.Props.C11Wire
-import Zc.Props.C12Host
+import Zc.Props.C12
 import Zc.Proofs.ResponseExact
 /-! # C11 — replies are routed and formatted as RFC 6762 §5.4, §6 and §6.7 require
 
@@ -590,6 +590,7 @@ theorem C11_reply_own_query_partial (srcPort : Nat → Nat) (h : Host) (t : Int)
   | idle lis => rw [(perform_idle hp).2] at hm; cases hm
   | defer lis d => rw [(perform_defer hp).2] at hm; cases hm
   | ready d => obtain ⟨t', he⟩ := decide_ready hd; cases he
+  | remove d recs => rw [(perform_remove hp).1] at hm; cases hm
   | answer lis pkts addr' port' =>
     obtain ⟨rest, ha⟩ := perform_answer hp
     obtain ⟨ha', hp', hk'⟩ := decide_rx_answer hd
@@ -669,7 +670,8 @@ on a host with any sockets.  Then for **every** unsuppressed candidate answer `x
 1. in that very block a unicast datagram carrying `x` is written on the receiving socket to the querier's complete sockaddr, with the id
    of the first packet; and
 2. `x` is multicast **on every socket** of the host: in the same block, or by a queue's timer callback at most 500 ms (aggregated) /
-   1200 ms (seen in the last second) later, in every continuation of the run — or the run ends before that deadline. -/
+   1200 ms (seen in the last second) later, in every continuation of the run — or the run ends before that deadline, or `x` was withdrawn meanwhile by an
+   `async_remove_answers` block (its service was unregistered: C12's `withdrawnInTrace`). -/
 theorem C11_legacy_end_to_end (w : World) {hO hD : List AddRec} {clock : Int} {h : Host} (hI : HInv hO hD clock h)
     {e : Ev} {es : List Ev} {h' : Host} {c' : Int} {r : StepOut} {tr : List (Ev × StepOut)}
     (hr : HRun h clock (e :: es) h' c' ((e, r) :: tr))
@@ -684,7 +686,8 @@ theorem C11_legacy_end_to_end (w : World) {hO hD : List AddRec} {clock : Int} {h
      (∃ dl, ∃ blk ∈ tr, ∃ t b, blk.1 = .qfire t dl ∧ x ∈ b.keys ∧ e.time ≤ t ∧ t ≤ e.time + (if dl then 1200 else 500) ∧
         ∀ s ∈ w.senders, ∀ fst, ({ sock := s.id, dest := groupDest s, packet := mcastContent b.keys (additionalsOf b) } : Sent Content) ∈
           blk.2.outs.flatMap (realize w fst)) ∨
-     c' ≤ e.time + 1200) := by
+     c' ≤ e.time + 1200 ∨
+     (∃ dl, withdrawnInTrace dl tr x)) := by
   obtain ⟨hu, hm⟩ := C11_query_legacy port hport hqa hp hit x hx
   have hasm : Assembled h e pkts port first qa := ⟨⟨lis, addr, hdec⟩, hf, hqa⟩
   constructor
@@ -697,17 +700,18 @@ theorem C11_legacy_end_to_end (w : World) {hO hD : List AddRec} {clock : Int} {h
   · have later : ∀ (dl : Bool), x ∈ (if dl then qa.mcastLast else qa.mcastAgg).keys →
         (∃ dl, ∃ blk ∈ tr, ∃ t b, blk.1 = .qfire t dl ∧ x ∈ b.keys ∧ e.time ≤ t ∧ t ≤ e.time + (if dl then 1200 else 500) ∧
           ∀ s ∈ w.senders, ∀ fst, ({ sock := s.id, dest := groupDest s, packet := mcastContent b.keys (additionalsOf b) } : Sent Content) ∈
-            blk.2.outs.flatMap (realize w fst)) ∨ c' ≤ e.time + 1200 := by
+            blk.2.outs.flatMap (realize w fst)) ∨ c' ≤ e.time + 1200 ∨ (∃ dl, withdrawnInTrace dl tr x) := by
       intro dl hxl
-      rcases C12_host_on_wire dl hI hr hasm hxl with ⟨blk, hblk, t, b, h1, h2, h3, h4, h5⟩ | hend
+      rcases C12_host_on_wire dl hI hr hasm hxl with ⟨blk, hblk, t, b, h1, h2, h3, h4, h5⟩ | hend | hw
       · left
         refine ⟨dl, blk, hblk, t, b, h1, h3, h4, h5, ?_⟩
         intro s hs fst
         refine List.mem_flatMap.mpr ⟨_, h2, ?_⟩
         rw [realize_mcast, multicast_eq]
         exact List.mem_map.mpr ⟨s, hs, rfl⟩
-      · right
+      · right; left
         cases dl <;> simp at hend <;> omega
+      · right; right; exact ⟨dl, hw⟩
     rcases hm with hnow | hagg | hlast
     · left
       have hne : qa.mcastNow.isEmpty = false := Dict.isEmpty_false_of_mem hnow
